@@ -61,7 +61,21 @@ def adapt_node(
     onnx.checker.check_model(source_model, full_check=True)
     target_model = onnx.version_converter.convert_version(source_model, target_version)
 
-    return list(target_model.graph.node)
+    # Values introduced by the converter (e.g. the constant that replaces an attribute) are named
+    # uniquely only within the singleton graph - qualify them with the (unique) name of the node.
+    known_names = set(input_info) | {info.name for info in output_info}
+    target_nodes = list(target_model.graph.node)
+    renames = {
+        name: f"{proto.name}__{name}"
+        for target_node in target_nodes
+        for name in target_node.output
+        if name and name not in known_names
+    }
+    for target_node in target_nodes:
+        target_node.input[:] = [renames.get(name, name) for name in target_node.input]
+        target_node.output[:] = [renames.get(name, name) for name in target_node.output]
+
+    return target_nodes
 
 
 def adapt_inline(
